@@ -738,6 +738,41 @@ func genFilter(r *vgen.Rand, c genCfg, input []kvt, allowNil bool) fspec {
 	}
 }
 
+// ---- retain and re-verify: values the API handed out must not change when other sets are built / encoded later ----
+
+type retainedVal struct {
+	what string
+	desc any
+	same func() bool
+}
+
+var retained []retainedVal
+
+func retain(what string, desc any, same func() bool) {
+	if len(retained) < 6000 {
+		retained = append(retained, retainedVal{what, desc, same})
+	}
+}
+
+// retainKVs keeps a slice the API returned together with a rendering made now.
+func retainKVs(what string, desc any, l []attribute.KeyValue) {
+	snap := kvsCoq(fromAttrs(l))
+	retain(what, desc, func() bool { return kvsCoq(fromAttrs(l)) == snap })
+}
+
+// retainSet keeps a Set value: its contents, identity and encoding must be the same when asked again later.
+func retainSet(what string, desc any, set attribute.Set) {
+	snap := kvsCoq(fromAttrs(set.ToSlice()))
+	key := set.Equivalent()
+	eq0 := key == set.Equivalent()
+	enc := set.Encoded(attribute.DefaultEncoder())
+	encCopy := strings.Clone(enc)
+	retain(what, desc, func() bool {
+		return kvsCoq(fromAttrs(set.ToSlice())) == snap && (key == set.Equivalent()) == eq0 && enc == encCopy &&
+			set.Encoded(attribute.DefaultEncoder()) == encCopy
+	})
+}
+
 // ---- API entry points judged directly (no model needed: each is defined by ToSlice) ----
 
 type recEncoder struct {
@@ -787,6 +822,12 @@ func apiChecks(w *vgen.Writer, desc any, set *attribute.Set) {
 		}
 	}
 	b, err := set.MarshalJSON()
+	if err == nil {
+		jsonCopy := string(b)
+		retain("Set.MarshalJSON bytes", desc, func() bool { return string(b) == jsonCopy })
+	}
+	retainKVs("Set.ToSlice result", desc, ts)
+	retainSet("Set (ToSlice / Equivalent / Encoded asked again)", desc, *set)
 	if (err == nil) != finite {
 		w.Violation(fmt.Sprintf("MarshalJSON error=%v for a set with finite=%v floats", err, finite), desc)
 	} else if err == nil {
@@ -810,6 +851,7 @@ func apiChecks(w *vgen.Writer, desc any, set *attribute.Set) {
 	}
 	// a user-supplied Encoder is handed an iterator over exactly the contents
 	enc := &recEncoder{id: customEncoderID}
+	retainKVs("key-values an Encoder received from the iterator", desc, enc.got)
 	if got := set.Encoded(enc); got != fmt.Sprintf("rec%d", len(ts)) || !sameKVs(enc.got, ts) {
 		w.Violation("Encoded(custom encoder) did not pass the set's contents to the encoder", desc)
 	}
@@ -971,6 +1013,7 @@ func main() {
 			if set.Equals(&cp) != selfEq {
 				w.Violation("Equals(copy) differs from Equals(self)", desc)
 			}
+			retainKVs("NewSetWithFiltered removed list", desc, removed)
 			term := vgen.App("CNew", kvsCoq(input), f.coq(), kvsCoq(after), kvsCoq(fromAttrs(ts)), kvsCoq(fromAttrs(removed)),
 				vgen.N(uint64(set.Len())), vgen.Bool(selfEq), vgen.Bool(mapHit(&set, &set)), vgen.Bool(set.Equals(attribute.EmptySet())),
 				vgen.List(gets))
@@ -1193,6 +1236,7 @@ func main() {
 			}
 			contents := fromAttrs(set.ToSlice())
 			it := set.Iter()
+			var seen []attribute.KeyValue
 			var opc, obs, names []string
 			for _, op := range ops {
 				opc = append(opc, opNames[op])
@@ -1215,9 +1259,15 @@ func main() {
 				case 3:
 					obs = append(obs, vgen.App("OLen", vgen.N(uint64(it.Len()))))
 				case 4:
-					obs = append(obs, vgen.App("OSlice", kvsCoq(fromAttrs(it.ToSlice()))))
+					sl := it.ToSlice()
+					retainKVs("Iterator.ToSlice result", desc, sl)
+					obs = append(obs, vgen.App("OSlice", kvsCoq(fromAttrs(sl))))
+				}
+				if op == 1 || op == 2 {
+					seen = append(seen, it.Attribute())
 				}
 			}
+			retainKVs("key-values returned by Iterator.Attribute", desc, seen)
 			desc["calls"] = strings.Join(names, " ")
 			w.Tally(fmt.Sprintf("iter:setlen=%s", lenBucket(len(contents))))
 			w.Add(vgen.App("CIter", kvsCoq(input), fc, kvsCoq(contents), vgen.List(opc), vgen.List(obs)), desc, "iter", len(ops) > 1 && len(contents) > 0)
@@ -1309,6 +1359,9 @@ func main() {
 			orig := fromAttrs(s.ToSlice())
 			keep := s
 			kept, dropped := s.Filter(f.goFilter())
+			retainSet("Set.Filter kept set", desc, kept)
+			retainKVs("Set.Filter dropped list", desc, dropped)
+			retainSet("Set.Filter receiver", desc, s)
 			after := fromAttrs(s.ToSlice())
 			if s.Equals(&keep) != keep.Equals(&keep) {
 				w.Violation("Filter changed the identity of its receiver", desc)
@@ -1375,6 +1428,8 @@ func main() {
 		guard(desc, func() {
 			s := attribute.NewSet(toAttrs(input, r)...)
 			enc := s.Encoded(attribute.DefaultEncoder())
+			encCopy := strings.Clone(enc)
+			retain("Set.Encoded string", desc, func() bool { return enc == encCopy })
 			ts := s.ToSlice()
 			emits := make([]string, len(ts))
 			for j, x := range ts {
@@ -1386,6 +1441,19 @@ func main() {
 		})
 	}
 
+	// re-verify everything retained, now that hundreds of other sets were built, filtered and encoded
+	changed := 0
+	for _, rv := range retained {
+		ok := false
+		guard(rv.desc, func() { ok = rv.same() })
+		if !ok {
+			if changed < 20 {
+				w.Violation("a value returned earlier changed after later calls: "+rv.what, rv.desc)
+			}
+			changed++
+		}
+	}
+	w.Extra["retained_values_reverified"] = len(retained)
 	if err := w.Flush(); err != nil {
 		fmt.Fprintln(os.Stderr, err)
 		os.Exit(2)
